@@ -691,6 +691,11 @@ class _Helper(object):
     body = _strip_doc(node.body)
     if not body:
       return
+    # guard-clause returns of plain values are one conditional value: `if c: return A` +
+    # `return B` reads as `return A if c else B`, which can be inlined where a value is needed
+    tmp = ast.FunctionDef(name="_", args=node.args, body=copy.deepcopy(body), decorator_list=[])
+    if conditional_values(tmp) and len(tmp.body) == 1 and isinstance(tmp.body[0], ast.Return):
+      body = tmp.body
     rets = _own_returns(body)
     if len(body) == 1 and isinstance(body[0], ast.Return) and body[0].value is not None:
       self.kind = "expr"
@@ -702,6 +707,52 @@ class _Helper(object):
     self.params = [x.arg for x in a.args]
     self.defaults = dict(zip(self.params[len(self.params) - len(a.defaults):], a.defaults))
     self.ok = True
+
+
+def _has_own_return(s):
+  return bool(_own_returns([s]))
+
+
+def _always_leaves(stmts):
+  if not stmts:
+    return False
+  last = stmts[-1]
+  if isinstance(last, (ast.Return, ast.Raise)):
+    return True
+  if isinstance(last, ast.If):
+    return _always_leaves(last.body) and _always_leaves(last.orelse)
+  return False
+
+
+def returns_to_assignments(stmts, make_result):
+  """Rewrite a callee body whose returns are guard clauses / branch ends (not inside loops, try
+  or with) into statements that end by `make_result(value)` instead of returning, so that it
+  can be spliced where a value is needed. None when a return sits where this cannot be done."""
+  out = []
+  for i, s in enumerate(stmts):
+    if isinstance(s, ast.Return):
+      return out + make_result(s.value if s.value is not None else ast.Constant(value=None))
+    if isinstance(s, ast.Raise):
+      return out + [s]
+    if isinstance(s, ast.If) and _has_own_return(s):
+      rest = stmts[i + 1:]
+      if _always_leaves(s.body):
+        nb = returns_to_assignments(s.body, make_result)
+        no = returns_to_assignments(list(s.orelse) + rest, make_result)
+      elif s.orelse and _always_leaves(s.orelse):
+        nb = returns_to_assignments(list(s.body) + rest, make_result)
+        no = returns_to_assignments(s.orelse, make_result)
+      else:
+        nb = returns_to_assignments(list(s.body) + rest, make_result)
+        no = returns_to_assignments(list(s.orelse) + copy.deepcopy(rest), make_result)
+      if nb is None or no is None:
+        return None
+      new = ast.If(test=s.test, body=nb or [ast.Pass()], orelse=no)
+      return out + [ast.copy_location(new, s)]
+    if _has_own_return(s):
+      return None
+    out.append(s)
+  return out + make_result(ast.Constant(value=None))
 
 
 class Inliner(object):
@@ -854,9 +905,18 @@ class Inliner(object):
             if r is not None and r[0].fi.qualname not in done_targets.get("blocked", ()) and \
                 done_targets.setdefault("n", {}).get(r[0].fi.qualname, 0) < 3:
               h, is_m = r
-              usable = h.kind in ("expr", "stmts") or (h.kind == "multi" and site[0] == "return")
+              usable = True
               if usable:
                 inst = self._instantiate(h, is_m, site[1], names)
+                if inst is not None and h.kind == "multi" and site[0] != "return":
+                  # guard-clause returns become branches ending in the assignment
+                  if site[0] == "assign":
+                    mk = lambda v, s=s: [ast.Assign(targets=copy.deepcopy(s.targets), value=v)]
+                  else:
+                    mk = lambda v: ([ast.Expr(value=v)]
+                                    if any(isinstance(x, ast.Call) for x in ast.walk(v)) else [])
+                  conv = returns_to_assignments(inst[1], mk)
+                  inst = (inst[0], conv) if conv is not None else None
                 if inst is not None:
                   pre, body = inst
                   new = list(pre)
